@@ -329,6 +329,23 @@ func readFramed(net string, in []byte) (int, error) {
 	return len(in) - c.r.Len(), err
 }
 
+// framedBound returns the cap the framed read path may use for input in: the
+// decoder cap plus MaxLength of the command NAMED IN THE HEADER (the node
+// dispatches on it), or nothing for a command that network does not handle.
+func framedBound(net string, in []byte) (name string, cap int) {
+	if len(in) < 24 {
+		return "framed/" + net + "/short-header", capNone
+	}
+	cmd := string(bytes.TrimRight(in[4:16], "\x00"))
+	for i := range messages {
+		m := &messages[i]
+		if m.framed && m.net == net && m.name == cmd {
+			return "framed/" + net + "/" + cmd, m.cap + int(m.fresh().MaxLength())
+		}
+	}
+	return "framed/" + net + "/unknown-command", capNone
+}
+
 var framedMessages = func() []int {
 	var idx []int
 	for i, m := range messages {
@@ -381,7 +398,8 @@ func oneFramedCase(t *rapid.T, mi int) {
 		netIdx = 1
 	}
 	journal('f', mi, 0, netIdx<<8|uint32(dmsg.GetPayloadVersion()), in)
-	sig, detail, consumed, _ := verdict(name, m.cap+int(maxLen), in, func() (int, error) { return readFramed(m.net, in) })
+	bname, bcap := framedBound(m.net, in)
+	sig, detail, consumed, _ := verdict(bname, bcap, in, func() (int, error) { return readFramed(m.net, in) })
 	vk.Case(name+"/"+strings.TrimPrefix(kind, "framed/"), consumed > reach, append([]byte(name), in...), func() any { return render(name, 0, kind, in, "") })
 	if sig != "" {
 		report(t, sig, detail, render(name, 0, kind, in, detail))
@@ -405,8 +423,8 @@ func runRaw(t testing.TB, kind byte, idx int, ver byte, extra uint32, in []byte)
 		mi := framedMessages[idx%len(framedMessages)]
 		m := &messages[mi]
 		dmsg.SetPayloadVersion(extra & 1)
-		name := "framed/" + m.net + "/" + m.name
-		sig, detail, _, _ := verdict(name, m.cap+int(m.fresh().MaxLength()), in, func() (int, error) { return readFramed(m.net, in) })
+		name, bcap := framedBound(m.net, in)
+		sig, detail, _, _ := verdict(name, bcap, in, func() (int, error) { return readFramed(m.net, in) })
 		if sig != "" {
 			vk.Report(t, sig, detail, render(name, 0, "fuzz", in, detail))
 		}
